@@ -172,6 +172,46 @@ def odd_value_cases(tier, rng, kinds, count, tools_subset=None):
         yield case
 
 
+def impure_fn_cases(tier, rng, kinds, tools_subset=None, cons_for=None):
+    """user callables whose answer depends on the INVOCATION, not on the argument, applied to streams of items that are all
+    equal (and to streams that repeat one object): a library that remembers the key / predicate / function value of an
+    "equal" item instead of calling again gives different items, a different order or a different call sequence"""
+    grid = tool_grid(tier)
+    patterns = {
+        "pred": [[["b", True], ["b", False], ["b", True], ["b", True], ["b", False], ["b", True]],
+                 [["b", False], ["b", True], ["b", False], ["b", False], ["b", True]]],
+        "key": [[["i", 2], ["i", 0], ["i", 1], ["i", 1], ["i", 0], ["i", 2], ["i", 3]],
+                [["i", 0], ["i", 2], ["i", 1], ["i", 3], ["i", 1], ["i", 0]]],
+    }
+    role = {"filter": "pred", "filterfalse": "pred", "takewhile": "pred", "dropwhile": "pred", "merge": "key", "min": "key",
+            "max": "key", "sorted": "key", "nlargest": "key", "nsmallest": "key", "map": "key", "starmap": "key",
+            "accumulate": "key", "reduce": "key"}
+    n = 0
+    for tool, r in role.items():
+        if tools_subset and tool not in tools_subset:
+            continue
+        nsrc, plist, fns, style = grid[tool]
+        if not fns:
+            continue
+        for params in plist:
+            if all(params.get(k) is None for k in ("fn", "key")) and tool not in ("takewhile", "dropwhile", "starmap", "map", "reduce"):
+                continue
+            for lens in ([(1,), (2,), (3,), (4,)] if nsrc == 1 else [(2, 1), (1, 2), (2, 2), (3, 0), (3, 2)]):
+                for vs in patterns[r]:
+                    for same_object in (False, True):
+                        n += 1
+                        keyseqs = [[1] * ln for ln in lens]
+                        cons_list = (cons_for or cons_exhaust)(tool, sum(lens))
+                        for cons in cons_list:
+                            case = build_case(tool, params, [{"kind": "seq", "vs": vs}] * len(fns), style, keyseqs,
+                                              _rot(kinds, n, len(lens)), cons, _rot(FLAV, n, len(fns)))
+                            if same_object and style in ("obj", "sorted"):
+                                for src in case["srcs"]:
+                                    src["script"] = [src["script"][0]] * len(src["script"]) if src["script"] else []
+                            case["family"] = "impure"
+                            yield case
+
+
 # ---------------------------------------------------------------------------------------------
 # judges
 
